@@ -291,7 +291,7 @@ macro_rules! impl_derivatives {
             #[inline]
             fn sph_j0(&self) -> Self {
                 if self.re().abs() < F::epsilon() {
-                    Self::one() - self * self / F::from(6.0).unwrap()
+                    Self::one() - self * self / F::from(6.0).unwrap() + self * self * self * self / F::from(120.0).unwrap()
                 } else {
                     self.sin() / self
                 }
@@ -310,7 +310,7 @@ macro_rules! impl_derivatives {
             #[inline]
             fn sph_j2(&self) -> Self {
                 if self.re().abs() < F::epsilon() {
-                    self * self / F::from(15.0).unwrap()
+                    self * self / F::from(15.0).unwrap() * (Self::one() - self * self / F::from(14.0).unwrap())
                 } else {
                     let (s, c) = self.sin_cos();
                     let s2 = self * self;
